@@ -34,7 +34,8 @@ inductive Op
   | loadBasis                   -- QSload_basis*: basis present, factorok := 0
   | optPrimal (rstatus : Nat) (fail : Bool)
   | optDual (rstatus : Nat) (fail : Bool)
-  | exactSolver (status : Nat) (fail : Bool)   -- QSexact_solver on the rational object
+  | exactSolver (status : Nat) (fail : Bool) (bas fok : Bool)   -- QSexact_solver on the rational object; oracle for a non-optimal
+                                -- outcome: whether a basis is left loaded / the factorization flag (by-products of the basis tests)
   | failedCall                  -- any call rejected by its guard (C07): nothing changes
 deriving Repr, Inhabited
 
@@ -66,12 +67,13 @@ def step (s : S) : Op → S
   | .loadBasis => { s with basis := true, factorok := false }
   | .optPrimal r fail => if s.basis && s.cache then s else optWork s r fail
   | .optDual r fail => if s.basis && s.cache && s.factorok then s else optWork s r fail
-  | .exactSolver st fail =>
+  | .exactSolver st fail bas fok =>
     -- the exact driver loads bases and fills the cache only through QSexact_optimal_test
     if fail then s else
     if st = lpOptimal then { s with basis := true, cache := true, cacheVersion := s.lpVersion, keptByDelrows := false,
                                     factorok := false, qstatus := lpOptimal }
-    else { s with cache := false, keptByDelrows := false, qstatus := if st = lpInfeasible then lpInfeasible else s.qstatus }
+    else { s with cache := false, keptByDelrows := false, basis := bas, factorok := fok,
+                  qstatus := if st = lpInfeasible then lpInfeasible else s.qstatus }
   | .failedCall => s
 
 def run (ops : List Op) : S := ops.foldl step {}
